@@ -23,7 +23,7 @@ ASSUMPTIONS = [
     "no ACL, implicit defaults off, add_comments off",
     "if both front ends raise the same exception type for an input they are counted as agreeing (exceptions_agreed)",
 ]
-FLOORS = {"quick": {"pairs_compared": 500, "nonempty_patches": 300, "file_workers_compared": 150, "file_workers_concrete_model": 80, "equal_config_pairs": 300, "device_workers_compared": 150, "device_workers_safe_differs_from_full": 40, "file_diff_lines_checked": 1500, "file_diff_moved_lines_checked": 60, "vlan_list_pairs": 300, "file_workers_compared_with_comments": 150, "patches_whose_commands_carry_comments": 10},
+FLOORS = {"quick": {"pairs_compared": 500, "nonempty_patches": 300, "file_workers_compared": 150, "file_workers_concrete_model": 80, "equal_config_pairs": 300, "device_workers_compared": 150, "device_workers_safe_differs_from_full": 40, "file_diff_lines_checked": 1500, "file_diff_moved_lines_checked": 60, "vlan_list_pairs": 300, "file_workers_compared_with_comments": 150, "patches_whose_commands_carry_comments": 10, "file_pairs_saved_with_a_left_margin": 100},
           "thorough": {"pairs_compared": 20000, "nonempty_patches": 12000, "file_workers_compared": 150, "file_workers_concrete_model": 80, "equal_config_pairs": 300, "device_workers_compared": 150, "device_workers_safe_differs_from_full": 40, "file_diff_lines_checked": 1500, "file_diff_moved_lines_checked": 60, "vlan_list_pairs": 6000, "file_workers_compared_with_comments": 150, "patches_whose_commands_carry_comments": 10}}
 EXTRA_MODELS = {"huawei": ["Huawei CE6870", "Huawei NE40E-X8", "Huawei Quidway S5300"], "huawei ce": ["Huawei"], "cisco": ["Cisco Catalyst 2960"],
                 "nexus": ["Cisco Nexus 3432"], "asr": ["Cisco XRv"], "iosxr": ["Cisco ASR 9010"]}
@@ -268,12 +268,16 @@ def run_files(spec, acc):
             fmt = registry_connector.get().match(h).make_formatter()
             for o_, n_ in (("", "ip ssh version 2\n"), ("hostname a\n", "hostname a\nip ssh version 2\n"), ("hostname a\n", "hostname b\nip ssh version 2\n")):
                 jobs.append(("hints:" + n_[:20], h, o_, n_, tabparser.parse_to_tree(o_, fmt.split), tabparser.parse_to_tree(n_, fmt.split)))
-        for name, hw, before, after, old, new in jobs:
+        for jn, (name, hw, before, after, old, new) in enumerate(jobs):
             op, np_ = os.path.join(d, "old.cfg"), os.path.join(d, "new.cfg")
+            # every third pair is saved with a uniform left margin (a dump pasted out of an indented block): the same configuration
+            margin = ("", "    ", "\t")[jn % 3] if registry_connector.get().match(hw).NAME not in ("juniper", "ribbon", "nokia", "routeros", "pc") else ""
+            if margin:
+                acc.count("file_pairs_saved_with_a_left_margin")
             with open(op, "w") as f:
-                f.write(before)
+                f.write("".join(margin + ln if ln.strip() else ln for ln in before.splitlines(True)))
             with open(np_, "w") as f:
-                f.write(after)
+                f.write("".join(margin + ln if ln.strip() else ln for ln in after.splitlines(True)))
             args = types.SimpleNamespace(hw=hw, add_comments=False, indent="  ", show_rules=False, no_color=True, old=op, new=np_)
             w = {"files": True, "sample": name, "model": hw.model}
             try:
